@@ -1,5 +1,6 @@
 /-
 C18 — link and airspace load accounting, as the code does it (after the `fix:` commits for F-28, F-28b and F-40).
+Floats: see Props/C18Float.lean (the rounded accounting is proved equal to this model below 2^53 bytes).
 
 What is modelled (src/primaite/simulator/network/hardware/base.py `Link`, `WiredNetworkInterface.send_frame`,
 nodes/network/switch.py `SwitchPort.send_frame`, airspace.py `AirSpace`, `WirelessNetworkInterface.send_frame`,
@@ -20,7 +21,14 @@ container.py `Network.pre_timestep`):
   bytes and `size_Mbits = bytes * 8 / 2^20` is an exact dyadic float, see harness/rigs/link.py).  The only arithmetic
   fact used is that the value tested by the admission check is the value added to the load;
 * what the receiving interface answers (`acc`: TTL, addressing) and which events are nested are *inputs*; which verdict a
-  send gets and what the loads are afterwards are *outputs*.
+  send gets and what the loads are afterwards are *outputs*;
+* an exception raised while a frame is being processed unwinds through every `transmit_frame` / `AirSpace.transmit` below it and
+  none of them releases its reservation: such a send is `Ev.lost` / `Ev.wlost` (verdict `lost`), with whatever had completed
+  inside it.  The exception may be caught further up (the enclosing sends are then ordinary `send`s) or reach the caller of
+  the action (every enclosing send is `lost`);
+* `link.bandwidth` and the capacity of a frequency name are plain attributes a user's script can reassign between two actions
+  (`Op.setBw`, `Op.setCap`); no code of the simulator does so after construction (Gen: `capacityWriters`).  Neither looks at or
+  touches a load.
 
 Core Lean only.
 -/
@@ -77,6 +85,19 @@ inductive Ev where
   | setEn (k : Nat) (endA : Bool) (v : Bool)
   /-- the same for wireless interface `i` of channel `c`. -/
   | wsetEn (c : Nat) (i : Nat) (v : Bool)
+  /-- a wired `send_frame` that **never returned**: the frame was admitted, its size reserved, the frame handed to the far
+  interface, `nested` happened while the far node was processing it, and then an exception unwound through
+  `Link.transmit_frame` (raised anywhere below; it may be caught further up, or reach the caller of the whole action).
+  Nothing releases the reservation.  If the frame is not admitted this is an ordinary refused send. -/
+  | lost (k : Nat) (fromA : Bool) (s : Nat) (nested : List Ev)
+  /-- the same for a wireless send: an exception unwound through `AirSpace.transmit`. -/
+  | wlost (c : Nat) (i : Nat) (s : Nat) (nested : List Ev)
+  /-- inside the delivery of a wireless send by interface `i` of channel `c`: `AirSpace.transmit`'s loop has reached interface `j`
+  (`for w in wireless_interfaces_by_frequency[hz]: if w != sender and w.enabled: w.receive_frame(frame)`).  Whether `j` hears
+  the frame is decided **at this moment** (the loop walks the live list and tests `enabled` at each turn, so an interface
+  disabled earlier in the same delivery does not hear it and one enabled earlier in the same delivery does); what `j`'s node
+  then does are the events that follow in the same list. -/
+  | wrecv (c : Nat) (i : Nat) (j : Nat)
 
 inductive Verdict where
   | nolink     -- no such link / interface (malformed input; the implementation cannot express it)
@@ -85,11 +106,20 @@ inductive Verdict where
   | full       -- `can_transmit_frame`: load + size > bandwidth; dropped at the sender
   | rejected   -- handed to the far interface, which answered False; reservation released
   | carried    -- handed to the far interface, which took it
+  | lost       -- handed to the far interface; an exception unwound through the delivery; the reservation stays
+  | heard      -- (wireless, per receiver) the frame in the air was handed to this interface: it is enabled and not the sender
+  | deaf       -- (wireless, per receiver) the interface is disabled (or is the sender): it does not get the frame
 deriving Repr, DecidableEq
 
 /-- The frame was handed to a receiving interface. -/
 def Verdict.crossed : Verdict → Bool
-  | .rejected | .carried => true
+  | .rejected | .carried | .lost => true
+  | _ => false
+
+/-- The frame's size stays on the load of the link / channel: it was taken by the far interface, or the delivery was cut short
+by an exception after the hand-over. -/
+def Verdict.loaded : Verdict → Bool
+  | .carried | .lost => true
   | _ => false
 
 /-- One record per `send_frame` call, appended when the call returns. -/
@@ -98,10 +128,11 @@ structure Rec where
   k : Nat
   verdict : Verdict
   /-- sender / receiver `enabled` at the moment the verdict was reached (for `crossed`: the moment of the hand-over);
-  for a wireless send `enR` says that every receiver was enabled -/
+  a wireless send has one record of its own (`enR` = true once admitted: the airspace took it) and one `heard` / `deaf` record per
+  interface the loop of `AirSpace.transmit` reached (`enR` = that interface hears it) -/
   enS : Bool
   enR : Bool
-  /-- wireless: the interfaces that received the frame -/
+  /-- `heard` / `deaf` records: the interface the loop reached -/
   rcv : List Nat
   /-- size admitted (0 when the link was never asked) -/
   size : Nat
@@ -119,12 +150,8 @@ def bwOf (n : Net) (k : Nat) : Nat := match n.links[k]? with | some l => l.bw | 
 def cloadOf (n : Net) (c : Nat) : Nat := match n.chans[c]? with | some ch => ch.load | none => 0
 def capOf (n : Net) (c : Nat) : Nat := match n.chans[c]? with | some ch => ch.cap | none => 0
 
-/-- Indices `j ≠ i` (counted from `base`) whose flag is set: `for w in interfaces_by_frequency: if w != sender and w.enabled`. -/
-def receiversFrom (i : Nat) : Nat → List Bool → List Nat
-  | _, [] => []
-  | base, b :: bs => if b && base != i then base :: receiversFrom i (base + 1) bs else receiversFrom i (base + 1) bs
-
-def receivers (en : List Bool) (i : Nat) : List Nat := receiversFrom i 0 en
+/-- The verdict of one turn of `AirSpace.transmit`'s loop. -/
+def hearVerdict (ok : Bool) : Verdict := if ok then .heard else .deaf
 
 mutual
 /-- One event, in the state `n`; returns the new state and the records of every `send_frame` that returned meanwhile. -/
@@ -175,9 +202,8 @@ def runEv (n : Net) : Ev → Net × List Rec
           else
             -- AirSpace.transmit: add the load (keyed by hz), then hand the frame to every enabled other interface of the hz
             let n1 : Net := { n with chans := n.chans.set c { ch with load := ch.load + s } }
-            let rcv := receivers ch.en i
             let r := runEvs n1 nested
-            (r.1, r.2 ++ [{ wireless := true, k := c, verdict := .carried, enS, enR := true, rcv, size := s,
+            (r.1, r.2 ++ [{ wireless := true, k := c, verdict := .carried, enS, enR := true, rcv := [], size := s,
                             loadBefore := ch.load, load := cloadOf r.1 c, bw := capOf r.1 c, capS := capI }])
   | .setEn k endA v =>
     match n.links[k]? with
@@ -193,6 +219,60 @@ def runEv (n : Net) : Ev → Net × List Rec
     match n.chans[c]? with
     | none => (n, [])
     | some ch => ({ n with chans := n.chans.set c { ch with en := ch.en.set i v } }, [])
+  | .lost k fromA s nested =>
+    match n.links[k]? with
+    | none => (n, [{ wireless := false, k, verdict := .nolink, enS := false, enR := false, rcv := [], size := 0,
+                     loadBefore := 0, load := 0, bw := 0, capS := 0 }])
+    | some l =>
+      let enS := if fromA then l.enA else l.enB
+      let enR := if fromA then l.enB else l.enA
+      let stay (v : Verdict) : Net × List Rec :=
+        (n, [{ wireless := false, k, verdict := v, enS, enR, rcv := [], size := s, loadBefore := l.load,
+               load := l.load, bw := l.bw, capS := l.bw }])
+      if !enS then stay .disabled
+      else if !l.isUp then stay .down
+      else if !admits l.load s l.bw then stay .full
+      else
+        -- reserved, handed over, `nested` ran, then the exception passed: no release, the record is written at that moment
+        let n1 : Net := { n with links := n.links.set k { l with load := l.load + s } }
+        let r := runEvs n1 nested
+        (r.1, r.2 ++ [{ wireless := false, k, verdict := .lost, enS, enR, rcv := [], size := s,
+                        loadBefore := l.load, load := loadOf r.1 k, bw := bwOf r.1 k, capS := l.bw }])
+  | .wlost c i s nested =>
+    match n.chans[c]? with
+    | none => (n, [{ wireless := true, k := c, verdict := .nolink, enS := false, enR := false, rcv := [], size := 0,
+                     loadBefore := 0, load := 0, bw := 0, capS := 0 }])
+    | some ch =>
+      match ch.en[i]? with
+      | none => (n, [{ wireless := true, k := c, verdict := .nolink, enS := false, enR := false, rcv := [], size := 0,
+                       loadBefore := ch.load, load := ch.load, bw := ch.cap, capS := 0 }])
+      | some enS =>
+        match ch.caps[i]? with
+        | none => (n, [{ wireless := true, k := c, verdict := .nolink, enS := false, enR := false, rcv := [], size := 0,
+                         loadBefore := ch.load, load := ch.load, bw := ch.cap, capS := 0 }])
+        | some capI =>
+          let stay (v : Verdict) : Net × List Rec :=
+            (n, [{ wireless := true, k := c, verdict := v, enS, enR := false, rcv := [], size := s,
+                   loadBefore := ch.load, load := ch.load, bw := ch.cap, capS := capI }])
+          if !enS then stay .disabled
+          else if !admits ch.load s capI then stay .full
+          else
+            let n1 : Net := { n with chans := n.chans.set c { ch with load := ch.load + s } }
+            let r := runEvs n1 nested
+            (r.1, r.2 ++ [{ wireless := true, k := c, verdict := .lost, enS, enR := true, rcv := [], size := s,
+                            loadBefore := ch.load, load := cloadOf r.1 c, bw := capOf r.1 c, capS := capI }])
+
+  | .wrecv c i j =>
+    match n.chans[c]? with
+    | none => (n, [{ wireless := true, k := c, verdict := .nolink, enS := false, enR := false, rcv := [j], size := 0,
+                     loadBefore := 0, load := 0, bw := 0, capS := 0 }])
+    | some ch =>
+      let enJ := match ch.en[j]? with | some b => b | none => false
+      let enI := match ch.en[i]? with | some b => b | none => false
+      -- `if wireless_interface != sender_network_interface and wireless_interface.enabled`
+      let ok := enJ && j != i
+      (n, [{ wireless := true, k := c, verdict := hearVerdict ok, enS := enI, enR := ok, rcv := [j], size := 0,
+             loadBefore := ch.load, load := ch.load, bw := ch.cap, capS := 0 }])
 
 def runEvs (n : Net) : List Ev → Net × List Rec
   | [] => (n, [])
@@ -207,14 +287,40 @@ def tick (n : Net) : Net :=
   { links := n.links.map (fun l => { l with load := 0 }),
     chans := n.chans.map (fun c => { c with load := 0 }) }
 
+/-- `link.bandwidth = v` (a plain attribute of `Link`; no code of the simulator assigns it after construction, a user's script
+can). -/
+def setBw (n : Net) (k v : Nat) : Net :=
+  match n.links[k]? with
+  | none => n
+  | some l => { n with links := n.links.set k { l with bw := v } }
+
+/-- `AirSpace.set_frequency_max_capacity_mbps` as far as interface `i` of channel `c` is concerned: the capacity of the frequency
+name it uses becomes `v` (a change of one name = one such step per interface using the name).  Called by
+`PrimaiteGame.from_config` before any node exists; a user's script can call it at any time between actions. -/
+def setCap (n : Net) (c i v : Nat) : Net :=
+  match n.chans[c]? with
+  | none => n
+  | some ch => { n with chans := n.chans.set c { ch with caps := ch.caps.set i v } }
+
 /-- Top-level operations of an episode. -/
 inductive Op where
   | tick
   | act (evs : List Ev)
+  /-- the bandwidth of wired link `k` is changed (between two actions, possibly in the middle of a tick) -/
+  | setBw (k v : Nat)
+  /-- the capacity interface `i` of channel `c` is admitted against is changed -/
+  | setCap (c i v : Nat)
+
+/-- The operation changes a capacity. -/
+def Op.isCap : Op → Bool
+  | .setBw .. | .setCap .. => true
+  | _ => false
 
 def step (n : Net) : Op → Net × List Rec
   | .tick => (tick n, [])
   | .act evs => runEvs n evs
+  | .setBw k v => (setBw n k v, [])
+  | .setCap c i v => (setCap n c i v, [])
 
 /-- Run a whole history; all records in order. -/
 def run (n : Net) : List Op → Net × List Rec
